@@ -7,6 +7,7 @@ import (
 	"fmt"
 	"os"
 	"path/filepath"
+	"runtime/pprof"
 	"sort"
 	"strings"
 	"sync"
@@ -20,47 +21,47 @@ import (
 )
 
 type HarnessResult struct {
-	Harness     string              `json:"harness"`
-	Pkg         string              `json:"pkg"`
-	Paths       int                 `json:"paths"`
-	PathsOK     int                 `json:"paths_completed"`
-	Infeasible  int                 `json:"paths_infeasible"`
-	Aborted     map[string]int      `json:"aborted"`
-	Decisions   int                 `json:"decisions"`
-	Findings    []*FindingOut       `json:"findings"`
-	Reach       map[string]int      `json:"reach"`
-	Asserts     map[string]int      `json:"asserts_checked"`
-	AssertUnk   map[string]int      `json:"asserts_unknown"`
-	Samples     []interp.PathSample `json:"samples"`
-	Queries     int                 `json:"queries"`
-	QSat        int                 `json:"queries_sat"`
-	QUnsat      int                 `json:"queries_unsat"`
-	QUnknown    int                 `json:"queries_unknown"`
-	SolverS     float64             `json:"solver_s"`
-	WallS       float64             `json:"wall_s"`
-	BudgetHit   string              `json:"budget_hit"`
-	Funcs       []string            `json:"functions_encoded"`
-	SolverErrs  []string            `json:"solver_errors,omitempty"`
-	Terms       int                 `json:"terms"`
-	Error       string              `json:"error,omitempty"`
+	Harness    string              `json:"harness"`
+	Pkg        string              `json:"pkg"`
+	Paths      int                 `json:"paths"`
+	PathsOK    int                 `json:"paths_completed"`
+	Infeasible int                 `json:"paths_infeasible"`
+	Aborted    map[string]int      `json:"aborted"`
+	Decisions  int                 `json:"decisions"`
+	Findings   []*FindingOut       `json:"findings"`
+	Reach      map[string]int      `json:"reach"`
+	Asserts    map[string]int      `json:"asserts_checked"`
+	AssertUnk  map[string]int      `json:"asserts_unknown"`
+	Samples    []interp.PathSample `json:"samples"`
+	Queries    int                 `json:"queries"`
+	QSat       int                 `json:"queries_sat"`
+	QUnsat     int                 `json:"queries_unsat"`
+	QUnknown   int                 `json:"queries_unknown"`
+	SolverS    float64             `json:"solver_s"`
+	WallS      float64             `json:"wall_s"`
+	BudgetHit  string              `json:"budget_hit"`
+	Funcs      []string            `json:"functions_encoded"`
+	SolverErrs []string            `json:"solver_errors,omitempty"`
+	Terms      int                 `json:"terms"`
+	Error      string              `json:"error,omitempty"`
 }
 
 type FindingOut struct {
-	Kind    string                       `json:"kind"`
-	Site    string                       `json:"site"`
-	Msg     string                       `json:"msg"`
-	Count   int                          `json:"count"`
-	Inputs  map[string]string            `json:"inputs"` // hex
-	Ints    map[string]int64             `json:"ints"`
-	Bools   map[string]bool              `json:"bools"`
-	Fresh   map[string][]string          `json:"fresh"`
-	Decisions []int                      `json:"decisions"`
+	Kind      string              `json:"kind"`
+	Site      string              `json:"site"`
+	Msg       string              `json:"msg"`
+	Count     int                 `json:"count"`
+	Inputs    map[string]string   `json:"inputs"` // hex
+	Ints      map[string]int64    `json:"ints"`
+	Bools     map[string]bool     `json:"bools"`
+	Fresh     map[string][]string `json:"fresh"`
+	Decisions []int               `json:"decisions"`
 }
 
 type Output struct {
-	LoadS    float64          `json:"load_s"`
-	Results  []*HarnessResult `json:"results"`
-	LoadErr  string           `json:"load_error,omitempty"`
+	LoadS   float64          `json:"load_s"`
+	Results []*HarnessResult `json:"results"`
+	LoadErr string           `json:"load_error,omitempty"`
 }
 
 var stdAllowInit = map[string]bool{}
@@ -81,8 +82,14 @@ func main() {
 	concrete := flag.Bool("concrete", false, "run harness concretely (no explorer); verif inputs come from VERIF_MODEL")
 	trace := flag.Bool("trace", false, "trace")
 	tags := flag.String("tags", "verif", "build tags")
+	tier := flag.String("tier", "quick", "quick | thorough")
+	cpuprof := flag.String("cpuprofile", "", "write cpu profile")
 	flag.Parse()
+
 	_ = trace
+	if *tier == "thorough" {
+		interp.Tier = 1
+	}
 
 	t0 := time.Now()
 	overlay := map[string][]byte{}
@@ -177,6 +184,10 @@ func main() {
 		}
 	}
 	m := interp.NewMachine(prog, icfg)
+	if *cpuprof != "" {
+		f, _ := os.Create(*cpuprof)
+		pprof.StartCPUProfile(f)
+	}
 
 	var names []string
 	if *harnesses != "" {
@@ -210,29 +221,32 @@ func main() {
 		writeOut()
 	}
 	writeOut()
+	if *cpuprof != "" {
+		pprof.StopCPUProfile()
+	}
 	os.Exit(exit)
 }
 
 var modelRedirects = map[string]string{
-	"crypto/sha256.New":    "NewSha256",
-	"crypto/sha256.Sum256": "Sum256",
-	"crypto/sha512.New":    "NewSha512",
-	"crypto/hmac.New":      "NewHMAC",
-	"crypto/hmac.Equal":    "HMACEqual",
+	"crypto/sha256.New":                 "NewSha256",
+	"crypto/sha256.Sum256":              "Sum256",
+	"crypto/sha512.New":                 "NewSha512",
+	"crypto/hmac.New":                   "NewHMAC",
+	"crypto/hmac.Equal":                 "HMACEqual",
 	"crypto/subtle.ConstantTimeCompare": "ConstantTimeCompare",
-	"context.WithValue":    "WithValue",
-	"context.Background":   "Background",
-	"context.TODO":         "Background",
-	"context.WithCancel":   "WithCancel",
-	"context.WithTimeout":  "WithTimeout",
-	"errors.Is":            "ErrorsIs",
-	"errors.As":            "ErrorsAs",
-	"errors.Unwrap":        "ErrorsUnwrap",
-	"fmt.Errorf":           "Errorf",
-	"fmt.Sprintf":          "Sprintf",
-	"fmt.Sprint":           "Sprint",
-	"fmt.Sprintln":         "Sprintln",
-	"fmt.Fprintf":          "Fprintf",
+	"context.WithValue":                 "WithValue",
+	"context.Background":                "Background",
+	"context.TODO":                      "Background",
+	"context.WithCancel":                "WithCancel",
+	"context.WithTimeout":               "WithTimeout",
+	"errors.Is":                         "ErrorsIs",
+	"errors.As":                         "ErrorsAs",
+	"errors.Unwrap":                     "ErrorsUnwrap",
+	"fmt.Errorf":                        "Errorf",
+	"fmt.Sprintf":                       "Sprintf",
+	"fmt.Sprint":                        "Sprint",
+	"fmt.Sprintln":                      "Sprintln",
+	"fmt.Fprintf":                       "Fprintf",
 }
 
 func runHarness(m *interp.Machine, pkg *ssa.Package, fn *ssa.Function, res *HarnessResult, workers, maxPaths int, budget, qtimeout time.Duration, solver string) {
@@ -268,6 +282,12 @@ func runHarness(m *interp.Machine, pkg *ssa.Package, fn *ssa.Function, res *Harn
 	res.Asserts = sh.Asserts
 	res.AssertUnk = sh.AssertUnknown
 	res.Samples = sh.Samples
+	for i := range res.Samples {
+		sp := &res.Samples[i]
+		if sp.Model != nil {
+			sp.Full = convertFinding(&interp.Finding{Kind: "sample", Model: sp.Model, Sizes: sp.Sizes, FreshSizes: sp.FreshSizes, Decisions: nil}, 1)
+		}
+	}
 	res.BudgetHit = sh.BudgetHit
 	funcs := map[string]bool{}
 	for _, ex := range exs {
